@@ -122,9 +122,10 @@ Done(c, oc) == [op |-> c.op, x |-> c.x, y |-> c.y, dst |-> c.dst, tg |-> c.tg, i
 GeoOps     == {"translate", "scale", "rotate90"}
 UnaryOps   == {"neg", "pos", "abs"}
 BinaryOps  == {"add", "mul", "sub"}
-ProductOps == {"dot", "cross"}                  \* f.dot(g), f.cross(g): equal component counts (cross: three)
+ProductOps == {"dot", "cross", "angle"}         \* f.dot(g), f.cross(g), f.angle(g): equal component counts (cross: three)
 LengthOps  == {"norm", "orientation"}           \* values are not integers: vx = FALSE, everything else is constrained
-AlgebraOps == UnaryOps \cup BinaryOps \cup ProductOps \cup LengthOps \cup {"mulnum", "comp", "lshift"}
+NumOps     == {"mulnum", "addnum", "pow2"}      \* f * c, f + c (c added to every component), f ** 2
+AlgebraOps == UnaryOps \cup BinaryOps \cup ProductOps \cup LengthOps \cup NumOps \cup {"comp", "lshift"}
 SelOps     == {"selplane", "selrange", "getsub", "getregion", "pad", "resample"}
 PersistOps == {"h5", "ovf", "vtk", "xarray"}
 ValidOps   == {"setvalid", "mutatevalid"}
@@ -134,8 +135,11 @@ UpdateOps  == {"updateconst", "setarray", "fromfield", "writearray"}
 (* q_call: f(centre of a cell) (the text of the cell's values)                                                    *)
 BinQueryOps == {"q_meshclose", "q_fieldclose", "q_regionin", "q_aligned", "q_eq"}
 QueryOps   == BinQueryOps \cup {"q_mean", "q_call"}
+(* no property says which cells of an integral or a mean are valid: the model follows the library (all of them), a *)
+(* difference in that attribute alone is counted by the conformance channels, not judged                           *)
+ValidFreeOps == {"integrate", "mean", "integratecum"}
 LabelOps   == {"setvdims"}                      \* f.vdims = [...]: renames the components in place
-FieldMakers == AlgebraOps \cup SelOps \cup PersistOps \cup {"diff", "mkfield", "integrate", "mean"}
+FieldMakers == AlgebraOps \cup SelOps \cup PersistOps \cup {"diff", "mkfield", "integrate", "mean", "integratecum"}
 
 (* ---- variables of the user ------------------------------------------------------------- *)
 FVseq == <<"f", "g", "h">>
@@ -395,6 +399,9 @@ InModel(h, rts, c) ==
                            /\ ~CentreOnSrcFace(h, o, g)
                 [] c.op = "setsub" -> Len(c.a.a) = nd /\ Len(c.a.b) = nd /\ \A d \in 1 .. nd : 0 <= c.a.a[d] /\ c.a.a[d] <= c.a.b[d] /\ c.a.b[d] <= n[d]
                 [] c.op = "mulnum" -> fo.vx => (MaxAbs(fo.arr) <= 100000000 /\ Abs(c.a.c) <= 10)
+                [] c.op = "addnum" -> fo.vx => (MaxAbs(fo.arr) <= 1000000000 /\ Abs(c.a.c) <= 10)
+                [] c.op = "pow2"   -> fo.vx => MaxAbs(fo.arr) <= 30000
+                [] c.op = "integratecum" -> c.a.d \in 1 .. nd
                 [] c.op = "q_mean" -> fo.vx /\ MaxAbs(fo.arr) <= 10000000 /\ Len(fo.arr) <= 64
                 [] c.op = "q_call" -> fo.vx /\ c.a.cell \in DOMAIN fo.arr
                 [] c.op = "setvdims" -> c.a.lab # <<>>
@@ -448,7 +455,7 @@ Apply(h, rts, c) ==
            IF ~(SameMeshDeep(h, o, p) /\ (fo.nv = go.nv \/ fo.nv = 1 \/ go.nv = 1)) THEN Rej(h, rts)
            ELSE Bound(AllocF(h, LAMBDA fid : DFld(fo.mesh, md.nv, IF fo.vx /\ go.vx THEN BinArr(c.op, fo.arr, go.arr) ELSE [k \in DOMAIN fo.arr |-> ZeroVec(md.nv)],
                                                   AndArr(fo.valid, go.valid), fo.shape, md.lab, md.map, fo.vx /\ go.vx, md.mx, fid)), rts, c.dst)
-     [] c.op \in ProductOps ->
+     [] c.op \in {"dot", "cross"} ->
            LET p == rts[c.y]  fo == h[o]  go == h[p]  vx == fo.vx /\ go.vx IN
            IF ~SameMeshDeep(h, o, p) \/ (c.op = "cross" /\ fo.nv # 3) THEN Rej(h, rts)
            ELSE IF c.op = "dot"
@@ -457,6 +464,19 @@ Apply(h, rts, c) ==
                 (* the mapping of a cross product is not stated by any property (the library resets it to the default): mx = FALSE *)
                 ELSE Bound(AllocF(h, LAMBDA fid : DFld(fo.mesh, 3, [k \in DOMAIN fo.arr |-> IF vx THEN Cross(fo.arr[k], go.arr[k]) ELSE ZeroVec(3)],
                                                        AndArr(fo.valid, go.valid), fo.shape, fo.lab, fo.map, vx, FALSE, fid)), rts, c.dst)
+     [] c.op = "angle" ->
+           (* radians: not integers (vx = FALSE); a scalar field without labels on the operand's mesh, validity the AND *)
+           LET p == rts[c.y]  fo == h[o]  go == h[p] IN
+           IF ~SameMeshDeep(h, o, p) THEN Rej(h, rts)
+           ELSE Bound(AllocF(h, LAMBDA fid : DFld(fo.mesh, 1, [k \in DOMAIN fo.arr |-> <<0>>], AndArr(fo.valid, go.valid), fo.shape, <<>>, <<>>, FALSE, TRUE, fid)), rts, c.dst)
+     [] c.op = "addnum" ->
+           Bound(AllocF(h, LAMBDA fid : [h[o] EXCEPT !.vo = fid, !.ao = fid, !.arr = [k \in DOMAIN @ |-> [cc \in 1 .. h[o].nv |-> @[k][cc] + c.a.c]]]), rts, c.dst)
+     [] c.op = "pow2" ->
+           Bound(AllocF(h, LAMBDA fid : [h[o] EXCEPT !.vo = fid, !.ao = fid, !.arr = [k \in DOMAIN @ |-> [cc \in 1 .. h[o].nv |-> @[k][cc] * @[k][cc]]]]), rts, c.dst)
+     [] c.op = "integratecum" ->
+           (* C06: the cumulative integral lives on the field's own mesh; values (times a cell length) are not integers; all cells valid *)
+           Bound(AllocF(h, LAMBDA fid : [h[o] EXCEPT !.vo = fid, !.ao = fid, !.vx = FALSE, !.arr = [k \in DOMAIN @ |-> ZeroVec(h[o].nv)],
+                                                      !.valid = [k \in DOMAIN @ |-> TRUE]]), rts, c.dst)
      [] c.op = "norm" ->
            Bound(AllocF(h, LAMBDA fid : [h[o] EXCEPT !.vo = fid, !.ao = fid, !.nv = 1, !.arr = [k \in DOMAIN @ |-> <<0>>], !.lab = <<>>, !.map = <<>>, !.mx = TRUE, !.vx = FALSE]), rts, c.dst)
      [] c.op = "orientation" ->
@@ -587,7 +607,7 @@ P_OperandsUnchanged(h, rts, h2, rts2, c) ==
 (* between fields the cell-wise AND                                                                        *)
 P_ValidityRule(h, rts, h2, rts2, c) ==
    OkStep(c) =>
-      /\ (c.op \in UnaryOps \cup LengthOps \cup {"mulnum", "comp", "diff"}) => Res(h2, rts2, c).valid = Src(h, rts, c).valid
+      /\ (c.op \in UnaryOps \cup LengthOps \cup NumOps \cup {"comp", "diff"}) => Res(h2, rts2, c).valid = Src(h, rts, c).valid
       /\ (c.op \in BinaryOps \cup ProductOps \cup {"lshift"}) => Res(h2, rts2, c).valid = AndArr(Src(h, rts, c).valid, h[rts[c.y]].valid)
 (* C08: setting validity never changes stored values and yields a Boolean array of the mesh shape; 'norm' *)
 (* marks exactly the non-zero cells; C08: changing a validity afterwards never alters another field's       *)
@@ -621,6 +641,9 @@ P_Cellwise(h, rts, h2, rts2, c) ==
       /\ \A k \in DOMAIN r.arr :
             CASE c.op \in UnaryOps -> r.arr[k] = [cc \in 1 .. s.nv |-> UnVal(c.op, s.arr[k][cc])]
               [] c.op = "mulnum"   -> r.arr[k] = [cc \in 1 .. s.nv |-> s.arr[k][cc] * c.a.c]
+              [] c.op = "addnum"   -> r.arr[k] = [cc \in 1 .. s.nv |-> s.arr[k][cc] + c.a.c]
+              [] c.op = "pow2"     -> r.arr[k] = [cc \in 1 .. s.nv |-> s.arr[k][cc] * s.arr[k][cc]]
+              [] c.op = "angle"    -> TRUE
               [] c.op = "comp"     -> r.arr[k] = <<s.arr[k][c.a.c]>>
               [] c.op = "lshift"   -> r.arr[k] = s.arr[k] \o h[rts[c.y]].arr[k]
               [] c.op = "dot"      -> r.arr[k] = <<Dot(s.arr[k], h[rts[c.y]].arr[k])>>
@@ -694,6 +717,12 @@ P_Integrate(h, rts, h2, rts2, c) ==
       /\ rr.lo = RemoveAt(rs.lo, d) /\ rr.hi = RemoveAt(rs.hi, d) /\ rr.dims = RemoveAt(rs.dims, d) /\ rr.units = RemoveAt(rs.units, d)
       /\ FN(h2, g) = RemoveAt(FN(h, f), d) /\ h2[g].shape = FN(h2, g)
       /\ h2[g].nv = h[f].nv /\ h2[g].lab = h[f].lab
+(* C06: the cumulative integral keeps the mesh, the components and the labels *)
+P_IntegrateCum(h, rts, h2, rts2, c) ==
+   (OkStep(c) /\ c.op = "integratecum") =>
+      LET f == rts[c.x]  g == rts2[c.dst] IN
+      /\ FR(h2, g) = FR(h, f) /\ FN(h2, g) = FN(h, f) /\ h2[g].shape = h[f].shape
+      /\ h2[g].nv = h[f].nv /\ h2[g].lab = h[f].lab
 (* C14: an accepted assignment leaves exactly the requested subregion, well formed; a refused one is covered by DF_RejectUnchanged *)
 P_SetSub(h, rts, h2, rts2, c) ==
    (OkStep(c) /\ c.op = "setsub") =>
@@ -753,7 +782,7 @@ StepAll(h, rts, h2, rts2, c) ==
    /\ P_SetValid(h, rts, h2, rts2, c) /\ P_Update(h, rts, h2, rts2, c) /\ P_Cellwise(h, rts, h2, rts2, c)
    /\ P_PositionsKept(h, rts, h2, rts2, c) /\ P_CellAligned(h, rts, h2, rts2, c) /\ P_SelSubregions(h, rts, h2, rts2, c)
    /\ P_Persist(h, rts, h2, rts2, c) /\ P_InplaceEqualsCopy(h, rts, h2, rts2, c) /\ P_InplaceReturnsSelf(h, rts, h2, rts2, c)
-   /\ P_AffineExact(h, rts, h2, rts2, c) /\ P_Integrate(h, rts, h2, rts2, c) /\ P_SetSub(h, rts, h2, rts2, c)
+   /\ P_AffineExact(h, rts, h2, rts2, c) /\ P_Integrate(h, rts, h2, rts2, c) /\ P_IntegrateCum(h, rts, h2, rts2, c) /\ P_SetSub(h, rts, h2, rts2, c)
    /\ P_QueryPure(h, rts, h2, rts2, c) /\ P_Relabel(h, rts, h2, rts2, c)
 
 
@@ -776,7 +805,7 @@ ClauseHolds(nm, h, rts, h2, rts2, c) ==
      [] nm = "DF_InplaceEqualsCopy"  -> P_InplaceEqualsCopy(h, rts, h2, rts2, c)
      [] nm = "DF_InplaceReturnsSelf" -> P_InplaceReturnsSelf(h, rts, h2, rts2, c)
      [] nm = "DF_AffineExact"        -> P_AffineExact(h, rts, h2, rts2, c)
-     [] nm = "DF_Integrate"          -> P_Integrate(h, rts, h2, rts2, c)
+     [] nm = "DF_Integrate"          -> P_Integrate(h, rts, h2, rts2, c) /\ P_IntegrateCum(h, rts, h2, rts2, c)
      [] nm = "DF_SetSub"             -> P_SetSub(h, rts, h2, rts2, c)
      [] nm = "DF_QueryPure"          -> P_QueryPure(h, rts, h2, rts2, c)
      [] nm = "DF_Relabel"            -> P_Relabel(h, rts, h2, rts2, c)
@@ -825,6 +854,10 @@ Mul       == En("Mul") /\ \E x \in FR0, y \in FR0 : \E dst \in Dsts(roots, x) : 
 MulNum    == En("MulNum") /\ \E x \in FR0, cc \in Nums : \E dst \in Dsts(roots, x) : Do(MkCall("mulnum", x, "", dst, "self", FALSE, [c |-> cc]))
 Comp      == En("Comp") /\ \E x \in FR0 : \E cc \in 1 .. heap[roots[x]].nv, dst \in Dsts(roots, x) : Do(MkCall("comp", x, "", dst, "self", FALSE, [c |-> cc]))
 Sub       == En("Sub") /\ \E x \in FR0, y \in FR0 : \E dst \in Dsts(roots, x) : Do(MkCall("sub", x, y, dst, "self", FALSE, NoA))
+AddNum    == En("AddNum") /\ \E x \in FR0, cc \in Nums : \E dst \in Dsts(roots, x) : Do(MkCall("addnum", x, "", dst, "self", FALSE, [c |-> cc]))
+Pow2      == En("Pow2") /\ \E x \in FR0 : \E dst \in Dsts(roots, x) : Do(MkCall("pow2", x, "", dst, "self", FALSE, NoA))
+AngleP    == En("Angle") /\ \E x \in FR0, y \in FR0 : \E dst \in Dsts(roots, x) : Do(MkCall("angle", x, y, dst, "self", FALSE, NoA))
+IntegrateCum == En("IntegrateCum") /\ \E x \in FR0 : \E d \in 1 .. NDx(x), dst \in Dsts(roots, x) : Do(MkCall("integratecum", x, "", dst, "self", FALSE, [d |-> d]))
 DotP      == En("Dot") /\ \E x \in FR0, y \in FR0 : \E dst \in Dsts(roots, x) : Do(MkCall("dot", x, y, dst, "self", FALSE, NoA))
 CrossP    == En("Cross") /\ \E x \in FR0, y \in FR0 : \E dst \in Dsts(roots, x) : Do(MkCall("cross", x, y, dst, "self", FALSE, NoA))
 Norm      == En("Norm") /\ \E x \in FR0 : \E dst \in Dsts(roots, x) : Do(MkCall("norm", x, "", dst, "self", FALSE, NoA))
@@ -888,6 +921,7 @@ Next == \/ Translate \/ Scale \/ MeshRotate90 \/ FieldRotate90 \/ MkField
         \/ Neg \/ Pos \/ Abs_ \/ Add \/ Mul \/ MulNum \/ Comp \/ LShift \/ Diff
         \/ Sub \/ DotP \/ CrossP \/ Norm \/ Orientation \/ Integrate \/ FromField \/ SetSub
         \/ QMeshClose \/ QFieldClose \/ QRegionIn \/ QAligned \/ QEq \/ QMean \/ QCall \/ Mean \/ SetVdims
+        \/ AddNum \/ Pow2 \/ AngleP \/ IntegrateCum
         \/ SetValidArray \/ SetValidNorm \/ SetValidNone \/ MutateValid \/ UpdateConst \/ SetArray \/ WriteArray
         \/ SelPlane \/ SelRange \/ GetSub \/ GetRegion \/ Pad \/ Resample
         \/ H5 \/ Ovf \/ Vtk \/ Xarray
@@ -907,7 +941,7 @@ DF_Persist            == [][P_Persist(heap, roots, heap', roots', Last')]_vars
 DF_InplaceEqualsCopy  == [][P_InplaceEqualsCopy(heap, roots, heap', roots', Last')]_vars
 DF_InplaceReturnsSelf == [][P_InplaceReturnsSelf(heap, roots, heap', roots', Last')]_vars
 DF_AffineExact        == [][P_AffineExact(heap, roots, heap', roots', Last')]_vars
-DF_Integrate          == [][P_Integrate(heap, roots, heap', roots', Last')]_vars
+DF_Integrate          == [][P_Integrate(heap, roots, heap', roots', Last') /\ P_IntegrateCum(heap, roots, heap', roots', Last')]_vars
 DF_SetSub             == [][P_SetSub(heap, roots, heap', roots', Last')]_vars
 DF_QueryPure          == [][P_QueryPure(heap, roots, heap', roots', Last')]_vars
 DF_Relabel            == [][P_Relabel(heap, roots, heap', roots', Last')]_vars
